@@ -1,16 +1,29 @@
 import JaqalProofs.Lemmas.UsedQubitsSpec
 import JaqalProofs.Lemmas.UsedQubitsOrderMacros
+import JaqalProofs.Lemmas.BuiltSpecOK
 /-!
 # C13_exact against the specification (`Spec/Sem.lean`)
 
 `C13_exact_spec`: for a circuit as the builder makes it — pass 1's `ExpandMacros.WellFormed` (statements carry the
 definition of their name, arguments keyed by its parameters in order, macro bodies call earlier macros only), plus
-`SpecOK` below (a statement is tagged as a macro call iff it names a macro, one definition per gate name, every
-register argument / qubit source a valid alias chain `FillIn.ValidChain` and every index an integer, an integer let
-constant or a parameter — what `C14_sound_all` + `C06_valid_of_builder` give) — on which both the used-qubit analysis and
-the specification's evaluation succeed:
+`SpecOK` below (a statement is tagged as a macro call iff it names a macro, one definition per gate name, every argument
+typed as the builder types them: registers sized and sliced by ints / integer lets (`Builder.RegT`), qubit sources such
+registers or parameters, indices integers / integer lets / parameters, numbers literals or numeric lets) — on which both
+the used-qubit analysis and the specification's evaluation succeed:
 
   `i ∈ u[r]  ↔  ∃ app ∈ Sem.flat (meaning of the body), ActsOn (definitions of the circuit) all_qubits app r i`
+
+**`C13_exact_parsed`** is that statement for every circuit `parse_jaqal_string` returns on parser output, with no
+hypothesis about the circuit left: `builder_specOK` (from `built_known`, `built_gateShape`, `built_typed`) and
+`Builder.parsed_wellFormed` (`Lemmas/BuiltSpecOK.lean`) discharge `SpecOK` and `WellFormed`. That alias chains are VALID is
+not assumed: the builder does not check let-valued sizes and bounds, and `validChain_of_eval` shows validity follows
+wherever `Sem.evalReg` succeeds. (Only proviso: native gate definitions handed in through the configuration are not tagged
+`.macro`, which Python's `GateDefinition` objects never are.)
+
+Branch order, macro bodies included: `PermParC` closes `PermPar` over the body and the macro bodies; `C13_orderC_used`,
+`C13_orderC_accept`, `C13_orderC_reject` (the walk goes through the permuted callee at every call:
+`Lemmas/UsedQubitsOrderMacros.lean`), and `C13_order_state_perm` (any permutation of any number of pairwise independent
+branches leaves the state vector unchanged, wherever the block sits).
 
 i.e. the analysis returns exactly the fundamental qubits on which some gate application of the circuit's MEANING
 (macros expanded call-by-value, qubits resolved by list indexing into the registers' denotations) acts, read off the
@@ -262,8 +275,8 @@ theorem used_spec (ms : List Macro) (hwf : ExpandMacros.wfMacrosFrom ms [] ms = 
 /-! ### circuits -/
 
 /-- what `C13_exact_spec` needs beyond pass 1's `ExpandMacros.WellFormed`: one definition per gate name; a statement is
-tagged as a macro call iff it names a macro of the circuit; arguments are `GoodArg`s (valid alias chains, integer /
-let / parameter indices, literal or let numbers) — in the body and in every macro body. -/
+tagged as a macro call iff it names a macro of the circuit; arguments are `GoodArg`s (registers sized and sliced by ints /
+integer lets, integer / let / parameter indices, literal or let numbers) — in the body and in every macro body. -/
 structure SpecOK (c : Circuit) : Prop where
   functional : Functional (circuitDefs c)
   body : ∀ x ∈ stmtGates c.body,
@@ -414,6 +427,97 @@ theorem C13_order_state_perm {R : Type} [CommSemiring R]
     have hind2 := (h1.pairwise_iff (fun {l₁ l₂} h a ha b hb => indep_symm (h b hb a ha))).1 hind
     rw [ih2 hind2 pre, ih1 hind pre]
 
+/-! ### `SpecOK` from the builder: `C13_exact_spec` for parser-produced circuits, unconditionally -/
+
+mutual
+  theorem stmtGates_spec (ms : List Macro) : ∀ (s : Stmt) (x : String × GateDef × List (String × Val)), x ∈ stmtGates s →
+      x.2.1 ∈ Builder.gateDefsOf s ∧ (Builder.gateWF ms s → x.1 = x.2.1.name) ∧
+        (FillIn.StmtIn s → ∀ a ∈ x.2.2, FillIn.InT a.2 = true)
+    | .gate n gd args, x, hx => by
+      simp only [stmtGates, List.mem_singleton] at hx
+      subst hx
+      exact ⟨by simp [Builder.gateDefsOf], fun hg => hg.1, fun ht => ht⟩
+    | .block _ _ _ body, x, hx => by
+      simp only [stmtGates] at hx
+      obtain ⟨h1, h2, h3⟩ := stmtsGates_spec ms body x hx
+      exact ⟨by simpa [Builder.gateDefsOf] using h1, fun hg => h2 (by simpa [Builder.gateWF] using hg),
+        fun ht => h3 (by simp only [FillIn.StmtIn] at ht; exact ht.2)⟩
+    | .loop _ b, x, hx => by
+      simp only [stmtGates] at hx
+      obtain ⟨h1, h2, h3⟩ := stmtGates_spec ms b x hx
+      exact ⟨by simpa [Builder.gateDefsOf] using h1, fun hg => h2 (by simpa [Builder.gateWF] using hg),
+        fun ht => h3 (by simp only [FillIn.StmtIn] at ht; exact ht.2)⟩
+  theorem stmtsGates_spec (ms : List Macro) : ∀ (l : List Stmt) (x : String × GateDef × List (String × Val)),
+      x ∈ stmtsGates l → x.2.1 ∈ Builder.gateDefsOfList l ∧ (Builder.gateWFL ms l → x.1 = x.2.1.name) ∧
+        (FillIn.StmtsIn l → ∀ a ∈ x.2.2, FillIn.InT a.2 = true)
+    | [], x, hx => by simp [stmtsGates] at hx
+    | s :: r, x, hx => by
+      simp only [stmtsGates, List.mem_append] at hx
+      rcases hx with hx | hx
+      · obtain ⟨h1, h2, h3⟩ := stmtGates_spec ms s x hx
+        exact ⟨by simp [Builder.gateDefsOfList, h1], fun hg => h2 hg.1, fun ht => h3 ht.1⟩
+      · obtain ⟨h1, h2, h3⟩ := stmtsGates_spec ms r x hx
+        exact ⟨by simp [Builder.gateDefsOfList, h1], fun hg => h2 hg.2, fun ht => h3 ht.2⟩
+end
+
+/-- a typed value (`FillIn.InT`, what `built_typed` gives for every gate argument of a circuit built from text) is a `GoodArg` -/
+theorem goodArg_of_InT {v : Val} (h : FillIn.InT v = true) : GoodArg v := by
+  cases v with
+  | int _ => trivial
+  | flt _ => trivial
+  | const n x => cases x <;> trivial
+  | param _ _ => trivial
+  | qubit n s i =>
+    simp only [FillIn.InT, Bool.and_eq_true, Bool.or_eq_true] at h
+    refine ⟨?_, ?_⟩
+    · rcases h.1 with h1 | h1
+      · cases s <;> first | exact h1 | simp [Builder.RegT] at h1
+      · cases s <;> trivial
+    · rcases h.2 with h1 | h1
+      · obtain ⟨k, hk⟩ := isIntC_intOf h1
+        cases i <;> first | trivial | exact ⟨k, hk⟩
+      · cases i <;> trivial
+  | regF n sz => exact (by simpa [FillIn.InT] using h : Builder.RegT (.regF n sz) = true)
+  | regA n src => exact (by simpa [FillIn.InT] using h : Builder.RegT (.regA n src) = true)
+  | regS n src a b c => exact (by simpa [FillIn.InT] using h : Builder.RegT (.regS n src a b c) = true)
+  | none => simp [FillIn.InT, Builder.RegT] at h
+  | str _ => simp [FillIn.InT, Builder.RegT] at h
+
+/-- **`builder_specOK`.** A circuit `parse_jaqal_string` (no pass requested) makes of parser output satisfies `SpecOK`,
+given only that the native gate definitions in force are not tagged as macros (in the by-value model a `GateDef` handed in
+through the configuration could carry any tag; Python's are `GateDefinition` objects, never `Macro`s). -/
+theorem builder_specOK (cfg : Builder.Config) (sx : Sx) (c : Circuit) (hp : Builder.ParserSx (Builder.BSx.ofSx sx))
+    (h : Builder.parseBuild cfg sx = .ok c) (hnat : ∀ gd ∈ c.natives, gd.tag ≠ .macro) : SpecOK c := by
+  have hb := Builder.parseBuild_build h
+  obtain ⟨g, hk⟩ := Builder.built_known cfg _ c hb
+  obtain ⟨hgb, hgm⟩ := Builder.built_gateShape _ _ _ hb
+  have ht := Builder.built_typed cfg _ c hp hb
+  have known : ∀ gd ∈ circuitDefs c, Builder.GKnown g gd := by
+    intro gd hgd
+    simp only [circuitDefs, List.mem_map, List.mem_append, List.mem_flatMap] at hgd
+    obtain ⟨x, hx | ⟨m, hm, hx⟩, rfl⟩ := hgd
+    · exact hk.body _ (stmtGates_spec c.macros c.body x hx).1
+    · exact hk.macros m hm _ (stmtGates_spec c.macros m.body x hx).1
+  have one : ∀ (s : Stmt), Builder.StmtKnown g s → Builder.gateWF c.macros s → FillIn.StmtIn s → ∀ x ∈ stmtGates s,
+      (x.2.1.tag = .macro ↔ ExpandMacros.isMacro c.macros x.1 = true) ∧ ∀ a ∈ x.2.2, GoodArg a.2 := by
+    intro s hks hgs hts x hx
+    obtain ⟨h1, h2, h3⟩ := stmtGates_spec c.macros s x hx
+    refine ⟨?_, fun a ha => goodArg_of_InT (h3 hts a ha)⟩
+    rw [h2 hgs]
+    exact hk.tag hnat (hks _ h1)
+  exact ⟨fun a ha b hb hn => Builder.KnownTable.functional (known a ha) (known b hb) hn,
+    one c.body hk.body hgb ht.body, fun m hm => one m.body (hk.macros m hm) (hgm m hm) (ht.macros m hm)⟩
+
+/-- **C13_exact for parser-produced circuits, unconditionally**: for every circuit `parse_jaqal_string` returns on which
+the used-qubit analysis and the specification's evaluation succeed, the analysis returns exactly the fundamental qubits
+some gate application of the circuit's meaning acts on. -/
+theorem C13_exact_parsed (cfg : Builder.Config) (sx : Sx) (c : Circuit) (hp : Builder.ParserSx (Builder.BSx.ofSx sx))
+    (h : Builder.parseBuild cfg sx = .ok c) (hnat : ∀ gd ∈ c.natives, gd.tag ≠ .macro)
+    (u allQ : Used) (sem : Sem.Sem) (hu : usedCircuit c = .ok u) (hq : allQubits c.registers = .ok allQ)
+    (hs : Sem.evalStmt [] (Sem.denoteMacros [] c.macros) [] c.body = .ok sem) :
+    ∀ r i, Mem u r i ↔ ∃ app ∈ sem.flat, ActsOn (circuitDefs c) allQ app r i :=
+  C13_exact_spec c (Builder.parsed_wellFormed cfg sx c hp h) (builder_specOK cfg sx c hp h hnat) u allQ sem hu hq hs
+
 /-! ### Non-vacuity -/
 section Examples
 
@@ -528,6 +632,22 @@ example : usedCircuit (e2 brs) = .ok [("r", [0, 1, 3])] := by rfl
 example : usedCircuit (e2 brs') = .ok [("r", [3, 0, 1])] := by rfl
 example : checkDisjoint (e2 brs) = .ok () ∧ checkDisjoint (e2 brs') = .ok () := ⟨by rfl, by rfl⟩
 
+/-- `builder_specOK` / `parsed_wellFormed` on an accepted program (`C14`'s `progOK`: a register, a reversed strided alias, a
+macro and a call through the alias, anonymous gates): every hypothesis of `C13_exact_parsed` about the circuit holds -/
+theorem Builder.progOKnat : ((Builder.parseBuild {} Builder.progOK).toOption.map (·.natives)) = some [] := by decide
+
+theorem Builder.progOKsx : Builder.ParserSx (Builder.BSx.ofSx Builder.progOK) :=
+  ⟨_, rfl, by decide⟩
+
+example : ∃ c, Builder.parseBuild {} Builder.progOK = .ok c ∧ SpecOK c ∧ ExpandMacros.WellFormed c = true := by
+  cases h : Builder.parseBuild {} Builder.progOK with
+  | error e => have := Builder.progOKnat; rw [h] at this; cases this
+  | ok c =>
+    have hn : c.natives = [] := by
+      have := Builder.progOKnat; rw [h] at this; simpa [Except.toOption] using this
+    exact ⟨c, rfl, builder_specOK {} _ c Builder.progOKsx h (by rw [hn]; intro gd hgd; cases hgd),
+      Builder.parsed_wellFormed {} _ c Builder.progOKsx h⟩
+
 end Examples
 
 end Jaqal.UsedQubits
@@ -535,6 +655,8 @@ end Jaqal.UsedQubits
 #print axioms Jaqal.UsedQubits.C13_exact_spec_stmt
 #print axioms Jaqal.UsedQubits.C13_exact_spec
 #print axioms Jaqal.UsedQubits.C13_exact_bridge
+#print axioms Jaqal.UsedQubits.builder_specOK
+#print axioms Jaqal.UsedQubits.C13_exact_parsed
 #print axioms Jaqal.UsedQubits.C13_orderC_used
 #print axioms Jaqal.UsedQubits.C13_orderC_accept
 #print axioms Jaqal.UsedQubits.C13_orderC_reject
